@@ -96,9 +96,16 @@ func helloMatrixOpts(x *Ctx) (ship1Opts, string) {
 	p := x.Choose("hm-prolong", 3)
 	n := 1 + x.Choose("hm-repeat", 2)
 	x.SigAdd(fmt.Sprintf("cell=%d/%s/%d/%d", target, phase, w, p))
+	delivered := false
+	// in half of the runs the peer says nothing more after its hello and keeps the socket open
+	if x.Feat(FeatMoreInputs) && x.Chance("hm-silent", 0.5) {
+		x.SigAdd("then-silent")
+		o.silent = func(state int) bool { return delivered && (n == 0 || state != target) }
+	}
 	o.inject = func(state int) (string, string, bool) {
 		if n > 0 && state == target {
 			n--
+			delivered = true
 			x.Probe("hello-cell-delivered")
 			return fHello(phase, w, p), "hello-cell:" + phase, true
 		}
